@@ -2,6 +2,8 @@ import HkModel.Drive.Queue
 import HkModel.Drive.Dispatch
 import HkModel.Drive.Egress
 import HkModel.Drive.Route
+import HkModel.Drive.Auth
+import HkModel.Drive.Signing
 /-! `hkdriver <mode>`: reads protocol lines on stdin, answers one line per input line. -/
 open Hk
 
@@ -27,6 +29,13 @@ def runPure (f : String → String) : IO UInt32 := do
   stdout.putStrLn ("SUMMARY {\"steps\":" ++ toString n ++ ",\"not_ok\":" ++ toString bad ++ "}")
   return 0
 
+partial def loopAuth (h : IO.FS.Stream) (out : IO.FS.Stream) (st : DriveAuth.AState) : IO DriveAuth.AState := do
+  let line ← h.getLine
+  if line.isEmpty then return st
+  let (st', o) := DriveAuth.step st line
+  out.putStrLn o
+  loopAuth h out { st' with n := st'.n + 1, bad := if o == "ok" then st'.bad else st'.bad + 1 }
+
 def main (args : List String) : IO UInt32 := do
   let stdin ← IO.getStdin
   let stdout ← IO.getStdout
@@ -38,6 +47,11 @@ def main (args : List String) : IO UInt32 := do
   | ["dispatch"] => runPure DriveDispatch.processLine
   | ["egress"] => runPure DriveEgress.processLine
   | ["ingress"] => runPure DriveRoute.processLine
+  | ["signing"] => runPure DriveSigning.processLine
+  | ["auth"] =>
+    let st ← loopAuth stdin stdout {}
+    stdout.putStrLn ("SUMMARY {\"steps\":" ++ toString st.n ++ ",\"not_ok\":" ++ toString st.bad ++ "}")
+    return 0
   | _ =>
     IO.eprintln "usage: hkdriver <mode>"
     return 2
